@@ -125,6 +125,32 @@ class Lazy:
         return len(self._items)
 
 
+class SupplierError(Exception):
+    pass
+
+
+def failing_iter(items, k):
+    for i, x in enumerate(items):
+        if i == k:
+            raise SupplierError('after %d' % k)
+        yield x
+    raise SupplierError('at the end')
+
+
+class FailingLazy(Lazy):
+    def __init__(self, items, k):
+        Lazy.__init__(self, items)
+        self._k = k
+
+    def __getitem__(self, i):
+        if i >= self._k:
+            raise SupplierError('item %d' % i)
+        return self._items[i]
+
+    def __len__(self):
+        raise SupplierError('len')
+
+
 def elements(kind, xs, Elem=Elem):
     out = []
     for i, x in enumerate(xs):
@@ -274,7 +300,11 @@ def template(kind, opts, batch, pname='p', abort=False):
                'caught</dtml-try>{<dtml-var x missing="-">,<dtml-var '
                'sequence-index missing="-">,<dtml-var %s_index missing="-">,'
                '<dtml-var sequence-item missing="-">}'
-               % (' '.join(attrs), pname))
+               '(<dtml-var sequence-start missing="-">,<dtml-var '
+               'sequence-end missing="-">,<dtml-var next-sequence '
+               'missing="-">,<dtml-var %s_start missing="-">,<dtml-var '
+               'sequence-length missing="-">)'
+               % (' '.join(attrs), pname, pname))
         t = _t[key] = HTML(src)
     if t is None:
         from DocumentTemplate import HTML
@@ -405,12 +435,36 @@ def one(res, case, xs):
             ab = template(kind, opts, batch, 'p', True)(seq=seq2, boom=_boom)
         except Exception as e:
             ab = e
-        want = ('caught' if xs else '<EMPTY>') + '{-,-,-,-}'
+        want = ('caught' if xs else '<EMPTY>') + '{-,-,-,-}(-,-,-,-,-)'
         if ab != want:
             res.violate('aborted-loop', 'aborted:%s:%s%s' % (
                 kind, '+'.join(opts) or 'plain', ':batch' if batch else ''),
                 {'xs': xs, 'container': cont, 'got': repr(ab),
                  'expected': want}, dict(case, xs=list(xs)))
+    if got == exp and case.get('pname', 'p') == 'p' and \
+            cont in ('iter', 'gen', 'lazy'):
+        # the supplier itself fails: after k elements (iterators) / when
+        # asked for its length or an element (lazy sequence)
+        for k in range(0, len(xs) + 1):
+            items = elements(kind, xs, ecls)
+            if cont == 'lazy':
+                seq3 = FailingLazy(items, k)
+            else:
+                seq3 = failing_iter(items, k)
+            try:
+                ab = template(kind, opts, batch, 'p', True)(
+                    seq=seq3, boom=lambda: '')
+            except Exception as e:
+                ab = e
+            if not isinstance(ab, str) or not ab.endswith(
+                    '{-,-,-,-}(-,-,-,-,-)'):
+                res.violate('aborted-loop', 'failing-supplier:%s:%s%s' % (
+                    kind, '+'.join(opts) or 'plain',
+                    ':batch' if batch else ''),
+                    {'xs': xs, 'container': cont, 'fails_after': k,
+                     'got': repr(ab), 'expected': '...{-,-,-,-}(-,-,-,-,-)'},
+                    dict(case, xs=list(xs)))
+                break
     if got != exp:
         what = first_difference(got, exp, kind, opts, batch)
         res.violate('sequence-variables',
